@@ -173,6 +173,8 @@ impl Check for C12 {
             },
             // every depth 1..300 x nesting opener x context x following item
             PhaseSpec { name: "unwind", cases: textgen::unwind_count(), max_bytes: 0, exhaustive: true },
+            // one fragment repeated 1..600 times inside each of 21 constructs
+            PhaseSpec { name: "repeat", cases: textgen::repeat_count(), max_bytes: 0, exhaustive: true },
             PhaseSpec {
                 name: "tokens",
                 cases: tier.pick(60_000, 1_200_000),
@@ -197,6 +199,7 @@ impl Check for C12 {
         let text = match phase {
             "exhaustive" => exhaustive_string(index),
             "unwind" => textgen::unwind_text(index),
+            "repeat" => textgen::repeat_text(index),
             "tokens" => textgen::token_soup(&mut Dec::new(bytes)),
             "unicode" => textgen::unicode_soup(&mut Dec::new(bytes)),
             _ => textgen::mutate_corpus(&mut Dec::new(bytes), corpus::sources()),
